@@ -13,10 +13,16 @@ REQUIRED = ['C17.kdt_len_eq', 'C17.kdt_x_distinct_inrange', 'C17.kdt_y_inrange',
             'C17.kdt_y_injective', 'C17.kdt_pairs_one_to_one', 'C17.kdt_row_marked_at_most_once', 'C17.kdt_matched_iff',
             'C17.kdt_matched_iff_wf',
             'C17.kdt_marks_greedy', 'C17.kdt_closest_claimant', 'C17.kdt_first_neighbour_matched',
-            'C17.kdt_sortedpos_not_injective']
+            'C17.kdt_sortedpos_not_injective', 'C17.kdt_among_K_nearest']
 TRUSTED = ['scipy.spatial.cKDTree(y).query(x, k=K, distance_upper_bound=b) is an oracle: its result (D, inds) is obtained from the '
            'real library on the same inputs and handed to the model exactly (distances as exact rationals, inf as a sentinel)',
            'that the entries of a query row are the K nearest points of y is scipy\'s contract; the instance check recomputes it by brute force',
+           'ORACLE-LEVEL clauses (header of lean/Proofs/C17.lean): "among the K nearest neighbours" and "not farther than the bound" are '
+           'proved relative to the query table (kdt_knn_member: membership in the query row, reported distance within the bound) and, in the '
+           'property\'s own words, relative to the hypothesis C17.KNNContract (kdt_among_K_nearest: true distance within the bound, fewer '
+           'than K rows of y strictly closer). KNNContract - reported distances are the true ones, unlisted rows are at least as far as listed '
+           'ones - is NOT executable in the model; it is what pairing_failures checks by brute force on every case (kinds '
+           'y-not-among-K-nearest, pair-beyond-bound), independently of the KD-tree and of the model',
            'the order of exactly tied neighbours within a query row is whatever the KD-tree returns: the closest-claimant and '
            'first-neighbour instance checks read the real query table for it']
 ASSUMPTIONS = ['kdquery_wellformed (Kdt.wfCheck, the executable form of WFQuery, evaluated by the model on every query result of the run): '
